@@ -44,9 +44,12 @@ TRUSTED = [
     "oracle alone judges inv(fwd(t))",
 ]
 PARTIAL = [
-    "origin_plain_partial: zero at the first time point is proved only for parts whose first key point is the first time "
-    "point (first_point.t == 0 in practice); open finding F-C02-1 for parts that start later",
+    "origin_plain_partial / origin_pickup_partial: zero at the first time point (resp. at the end of the pickup measure) is "
+    "proved only for parts whose first key point is the first time point (first_point.t == 0 in practice); what holds in "
+    "general is origin_first_key / pickup_end_value; open finding F-C02-1 for parts that start later, negation proved at "
+    "the witness (origin_late_start_counterexample, origin_late_pickup_counterexample)",
     "two time signatures or two measures starting at the same time are not generated (iteration order is C10's subject)",
+    "non-positive divisions or signature numbers (WF fails) are outside the theorems and the generator",
 ]
 RULE = ("real partitura.score.Part objects built through Part(), set_quarter_duration, add(TimeSignature/Measure/Note), "
         "use_musical_beat/use_notated_beat/set_musical_beat_per_ts: 0-8 quarter-duration changes and 0-8 signatures on and off "
@@ -229,11 +232,18 @@ def cases(rng, tier):
 
 
 # ------------------------------------------------------------------ the statement, recomputed
+def extent(d):
+    """(first, last) time point of the part a description builds: every start/end of an added object"""
+    ts = [o[1] for o in d["ops"] if o[0] == "ts"]
+    times = ts + [x for m in d["measures"] for x in m] + [x for n in d["notes"] for x in n]
+    return min(times), max(times)
+
+
 class Spec:
     """exact maps from the property statement for a case description"""
 
     def __init__(self, d):
-        self.first, self.last = d["first"], d["last"]
+        self.first, self.last = extent(d)
         qd = {0: d["q0"]}
         for t, q in d["qd"]:
             qd[t] = q
@@ -565,7 +575,7 @@ def evaluate(d):
 
     # failures matching the open finding go last, so that a replay shows a new failure first
     ev.oracle.sort(key=lambda f: f.startswith("origin-at-time-0"))
-    ev.key = "%d|%r|%r|%r|%s" % (d["q0"], d["qd"], d["ops"], sp.m1, d["first"])
+    ev.key = "%d|%r|%r|%r|%s" % (d["q0"], d["qd"], d["ops"], sp.m1, sp.first)
     ev.info = {"late": first > 0}
     return ev
 
@@ -575,28 +585,22 @@ def finding_key(d, failure):
 
 
 def shrink(d):
-    if d.get("kind") != "part" or d["first"] > 0:
+    if d.get("kind") != "part" or extent(d)[0] > 0:
         # a late-starting part always shows the open finding F-C02-1: shrinking it with the predicate
         # "some oracle failure" would drift to that finding, so such cases are kept as found
         return
-    for k in ("qd", "ops", "notes", "halves"):
-        for i in range(len(d[k])):
-            if k == "notes" and i == 0:
-                continue
+    for k in ("qd", "ops", "notes", "halves", "measures"):
+        for i in range(len(d[k]) - 1, -1, -1):
             c = dict(d)
             c[k] = d[k][:i] + d[k][i + 1:]
+            if not c["notes"]:
+                continue
+            f, l = extent(c)
+            if f != 0 or l <= f:
+                continue
+            c["first"], c["last"] = f, l
+            c["halves"] = [h for h in c["halves"] if f <= h < l]
             yield c
-    for i in range(len(d["measures"]) - 1, 0, -1):
-        c = dict(d)
-        c["measures"] = d["measures"][:i] + d["measures"][i + 1:]
-        yield c
-    if d["last"] > max([d["first"] + 1] + [m[1] for m in d["measures"]] + [o[1] for o in d["ops"] if o[0] == "ts"]):
-        c = dict(d)
-        c["last"] = d["last"] - 1
-        c["notes"] = [[s, min(e, c["last"])] for s, e in d["notes"] if s <= c["last"]]
-        c["notes"][0] = [d["first"], c["last"]]
-        c["halves"] = [h for h in d["halves"] if h < c["last"]]
-        yield c
 
 
 def distribution(descs, results):
@@ -609,9 +613,9 @@ def distribution(descs, results):
         "modes": dict(Counter(d["mode"] for d in parts)),
         "n_qd_changes": dict(Counter(len(d["qd"]) for d in parts)),
         "n_signatures": dict(Counter(sum(1 for o in d["ops"] if o[0] == "ts") for d in parts)),
-        "late_start": sum(1 for d in parts if d["first"] > 0),
+        "late_start": sum(1 for d in parts if extent(d)[0] > 0),
         "first_measure": dict(Counter(
-            "none" if not [m for m in d["measures"] if m[0] == d["first"]] else "present" for d in parts)),
-        "timeline_length_max": max([d["last"] - d["first"] for d in parts] or [0]),
+            "none" if not [m for m in d["measures"] if m[0] == extent(d)[0]] else "present" for d in parts)),
+        "timeline_length_max": max([extent(d)[1] - extent(d)[0] for d in parts] or [0]),
         "qd_and_ts_coincide": sum(1 for d in parts if set(t for t, _ in d["qd"]) & set(o[1] for o in d["ops"] if o[0] == "ts")),
     }
